@@ -299,6 +299,7 @@ func GoValues(level int) []GV {
 			}
 		}
 	}
+	out = append(out, ExtraValues()...)
 	return out
 }
 
